@@ -60,22 +60,23 @@ def read_tlv(memory, offset, skip_bytes):
     # length (big endian).
     try:
         tlv_t, offset = (memory[offset], offset+1)
+
+        if tlv_t in (0x00, 0xFE):
+            return (tlv_t, -1, None)
+
+        tlv_l, offset = (memory[offset], offset+1)
+
+        if tlv_l == 0xFF:
+            tlv_l, offset = (
+                unpack(">H", memory[offset:offset+2])[0], offset+2)
+
+        tlv_v = bytearray(tlv_l)
+        for i in range(tlv_l):
+            while (offset + i) in skip_bytes:
+                offset += 1
+            tlv_v[i] = memory[offset+i]
     except Type1TagCommandError:
         return (None, None, None)
-
-    if tlv_t in (0x00, 0xFE):
-        return (tlv_t, -1, None)
-
-    tlv_l, offset = (memory[offset], offset+1)
-
-    if tlv_l == 0xFF:
-        tlv_l, offset = (unpack(">H", memory[offset:offset+2])[0], offset+2)
-
-    tlv_v = bytearray(tlv_l)
-    for i in range(tlv_l):
-        while (offset + i) in skip_bytes:
-            offset += 1
-        tlv_v[i] = memory[offset+i]
 
     return (tlv_t, tlv_l, tlv_v)
 
